@@ -419,7 +419,8 @@ def ctor_kwargs_variants(rec, P):
     for n, K, a in tab:
         if a.get("default") == "attr_noinit":
             continue  # init=False: not a constructor keyword
-        for v in K["conf"][: (2 if P.get("small") else 4)]:
+        cs = K["conf"][:4] if not P.get("small") else K["conf"][:2] + [v for v in K["conf"][-1:] if v not in K["conf"][:2]]
+        for v in cs:
             out.append(("new:conf", dict(base, **{n: v})))
         if P.get("invalid", True):
             for v in K["bad"][: (1 if P.get("small") else 3)]:
